@@ -124,7 +124,8 @@ def run(ctx):
     # ---- single faults inside deferred groups ("... deferred group"): the same enumeration over documents with
     # @defer, judged by the defer model (Props/C13: failure_in_group_stays_in_group) and by the merge statement
     ddivs = []
-    dcfgs = ["base", "wl2"] if ctx.tier == "quick" else ["base", "wl1", "wl2", "follow_funcsyn_wl2"]
+    # both template flavours of processDeferredGroup (generated!.gotpl, root_.gotpl)
+    dcfgs = ["base", "wl2", "follow_funcsyn_wl2"] if ctx.tier == "quick" else ["base", "wl1", "wl2", "follow_funcsyn_wl2", "funcsyn", "noptr"]
     n_dops = 40 if ctx.tier == "quick" else 300
     for cfg in dcfgs:
         b = built.get(cfg)
